@@ -66,6 +66,12 @@ def _build(ctx, st, P, bad=None):
             f1.qualifiers.pop("citation")
         recs.append(st.record.CircularRecord(st.Seq("ACGTTGCAAGCT"), id=("Exported" if P.get("ids") == "same" else "el%d" % i), name="n%d" % i, description="d",
                                              dbxrefs=["x:%d" % i], features=[f1, f2], annotations=ann))
+    if P.get("container") == "tuple":
+        # qualifier values written by a script as tuples instead of lists (Biopython accepts any container); which
+        # records do is symbolic
+        for i, rec in enumerate(recs):
+            if "citation" in rec.features[0].qualifiers and mk.bool("tuple_%d" % i):
+                rec.features[0].qualifiers["citation"] = tuple(rec.features[0].qualifiers["citation"])
     if P.get("alias") == "shared-list":
         # two features of one record share their citation list object (as a feature copied with qualifiers.copy() does)
         recs[0].features[1].qualifiers["citation"] = recs[0].features[0].qualifiers["citation"]
@@ -156,6 +162,11 @@ def obligations(tier, seed):
     for fault in tier_pick(tier, (0,), (0, 1, 3)):
         obs.append(Ob("purity m=2 citations-everywhere=True, all records share one id fault-at=%d" % fault, ob_pure,
                       dict(m=2, refs=True, sympos=0, ids="same", fault=fault), samples=6, cost=800, group="ids"))
+    obs.append(Ob("purity m=1 citations-everywhere=True, some citation qualifiers are tuples", ob_pure,
+                  dict(m=1, refs=True, sympos=0, container="tuple", fault=0), samples=10, cost=60, group="containers",
+                  expect_witness=("product",)))
+    obs.append(Ob("purity m=2 citations-everywhere=True, some citation qualifiers are tuples", ob_pure,
+                  dict(m=2, refs=True, sympos=0, container="tuple", fault=0), samples=6, cost=900, group="containers"))
     for m in range(1, tier_pick(tier, 2, 3) + 1):
         for refs in (True, False):
             for sympos in range(m + 1):
